@@ -537,3 +537,53 @@ def base_helpers():
                 return False
     print('REPLAY: not reproduced (%d chains tried)' % tried)
     return True
+
+
+# ------------------------------------------------------------------ locate (bounded native stand-in, contracts/C11.py LocateWithinTol) --
+
+def locate_within_tol():
+    """Topology.locate on small structured topologies (every shape in SHAPES, also one element wide in some direction) with separable
+    geometries that are affine or strictly monotone NONLINEAR per direction: for targets that are images of known interior points,
+    locate(tol=1e-10) either raises LocateError or returns, in input order, points whose images are within 1e-8 of the targets."""
+    import json
+    from nutils import mesh, function
+    from nutils.topology import LocateError
+    SHAPES = [(1,), (2,), (3,), (1, 1), (2, 1), (1, 2), (3, 1), (1, 3), (2, 2), (1, 2, 1), (2, 1, 1)]
+    maps = {'x': lambda x: x, '2x+1': lambda x: 2 * x + 1, 'x^2': lambda x: x**2, 'x+x^3/8': lambda x: x + x**3 / 8}
+    fracs = (0.3, 0.81)
+    cases, failures = 0, []
+    for shape in SHAPES:
+        nd = len(shape)
+        topo, x = mesh.rectilinear([numpy.linspace(1, 2, n + 1) for n in shape])
+        # targets: every element, two interior points (local fractions), listed in an order that is NOT the element order
+        pts = []
+        for ielem in itertools.product(*[range(n) for n in shape]):
+            for f in fracs:
+                pts.append([1 + (i + (f if k % 2 == 0 else 1 - f)) / n for k, (i, n) in enumerate(zip(ielem, shape))])
+        pts = numpy.array(pts[::-1])
+        for names in itertools.product(maps, repeat=nd):
+            if sum(nm not in ('x', '2x+1') for nm in names) > 1:
+                continue  # at most one nonlinear direction
+            geom = numpy.stack([maps[nm](x[k]) for k, nm in enumerate(names)])
+            targets = numpy.stack([maps[nm](pts[:, k]) for k, nm in enumerate(names)], axis=1)
+            cases += 1
+            try:
+                smp = topo.locate(geom, targets, tol=1e-10)
+            except LocateError:
+                continue
+            got = smp.eval(geom)
+            if got.shape != targets.shape:
+                failures.append(dict(clause='located-points-map-to-the-targets-in-input-order', shape=list(shape), geometry=list(names), got_shape=list(got.shape)))
+                continue
+            err = float(abs(got - targets).max())
+            if not err <= 1e-8:
+                k = int(abs(got - targets).max(axis=1).argmax())
+                failures.append(dict(clause='located-points-map-to-the-targets-in-input-order', shape=list(shape), geometry=list(names),
+                                     target=targets[k].tolist(), image_of_returned_point=got[k].tolist(), error=err))
+    print('BOUNDED-RESULT ' + json.dumps(dict(cases=cases, failures=failures[:10])))
+    if failures:
+        f = failures[0]
+        print('locate on mesh.rectilinear with shape %r, geometry %r, tol=1e-10: %s' % (f['shape'], f['geometry'], f))
+        print('REPLAY: VIOLATION-CONFIRMED locate() returned a point whose image is not within the tolerance of its target (and did not raise)')
+    else:
+        print('REPLAY: not reproduced (%d cases)' % cases)
